@@ -63,6 +63,9 @@ pub fn exact_planned(prop: &str, n: usize, dir: FftDirection, full_basis: bool, 
         if !st.mismatches.is_empty() {
             rep.violate(key.clone(), format!("exact DFT identity fails in F_p (p={}): {}", built.field.p, st.mismatches[0]), Json::Arr(st.mismatches.iter().map(|s| Json::Str(s.clone())).collect()));
         }
+        if prop == "C14" && (st.flags | built.build_flags) & fp::FLAG_RATIONAL_CONST != 0 {
+            rep.violate(key.clone(), "a rational constant (such as 1/len) reached the element type rounded through f64 instead of being computed with the type's own ring operations: with exact or higher-precision arithmetic the transform is no longer the exact DFT".into(), Json::Null);
+        }
         if st.flags & (fp::FLAG_NONLINEAR | fp::FLAG_NONRING | fp::FLAG_DIV_DATA) != 0 {
             // the basis argument needs a linear, data-oblivious circuit
             rep.violate(key.clone(), format!("executed circuit is not linear/data-oblivious: {}", fp::flag_names(st.flags)), Json::Null);
@@ -97,6 +100,14 @@ pub fn run(ctx: &Ctx) -> i32 {
         key_extra: String::new(),
     };
     let mut rep = floatlayer::run(&cfg);
+    // every prime above the dense range, lighter alphabet (reduced impulse positions, the three distinct planners)
+    let prime_hi = t.pick(8192, 65536);
+    let primes = lens::primes_between(dense_n, prime_hi);
+    let cfg_p = FloatCfg { planners: PK::DISTINCT.to_vec(), entries: t.pick(vec![Entry::InPlace, Entry::Immut], Entry::ALL.to_vec()), lens: primes.clone(), full_basis_max: 0, use_struct: false, ..cfg.clone() };
+    let pr = floatlayer::run(&cfg_p);
+    rep.merge(pr);
+    rep.set("all_primes_up_to", prime_hi);
+    rep.set("primes_run", primes.len());
     // ---- exact layer
     let ex_n = t.pick(200, 1024);
     let mut work: Vec<(usize, FftDirection, bool)> = Vec::new();
@@ -129,10 +140,11 @@ pub fn run(ctx: &Ctx) -> i32 {
     rep.set("pool_lengths_float", Json::Arr(pool_sel.iter().map(|x| Json::Int(x.0 as i64)).collect()));
     rep.set("pool_lengths_exact", Json::Arr(ex_pool.iter().map(|x| Json::Int(x.0 as i64)).collect()));
     rep.rule = format!(
-        "float layer: planners {{auto,scalar,sse,avx}} x {{f32,f64}} x {{fwd,inv}} x 4 entry points x every n in 0..={dn} with the complete real basis (2n impulses) and the STRUCT alphabet, plus {pc} computed pool lengths up to {ph} with 22 impulse positions x2 and closed-form STRUCT members; oracle: relative L2 error against a double-double naive DFT <= {tm}*16*eps*log2(2n). exact layer: FftPlanner::<Fp> (prime field, two primes) x {{fwd,inv}} x 4 entry points x every n in 0..={en} with the complete basis, zero vector and a dense vector, plus pool lengths with stratified impulses; oracle: equality in F_p, no data*data product, no poison. A case is non-trivial if n >= 2 and the input is non-zero; distinct = distinct (config, n, entry, input) tuples.",
+        "float layer: planners {{auto,scalar,sse,avx}} x {{f32,f64}} x {{fwd,inv}} x 4 entry points x every n in 0..={dn} with the complete real basis (2n impulses) and the STRUCT alphabet, plus {pc} computed pool lengths up to {ph} with 22 impulse positions x2 and closed-form STRUCT members, plus EVERY prime up to {pp} (planners scalar/sse/avx, 22 impulse positions x2); oracle: relative L2 error against a double-double naive DFT <= {tm}*16*eps*log2(2n). exact layer: FftPlanner::<Fp> (prime field, two primes) x {{fwd,inv}} x 4 entry points x every n in 0..={en} with the complete basis, zero vector and a dense vector, plus pool lengths with stratified impulses; oracle: equality in F_p, no data*data product, no poison. A case is non-trivial if n >= 2 and the input is non-zero; distinct = distinct (config, n, entry, input) tuples.",
         dn = dense_n,
         pc = pool_sel.len(),
         ph = t.pick(1 << 16, 1 << 20),
+        pp = prime_hi,
         tm = TOL_MULT,
         en = ex_n
     );
